@@ -9,7 +9,7 @@ t = open(os.path.join(K, "agent_prompt.txt")).read().replace("DIR", d).replace("
 ideas = []
 for m in sorted(glob.glob("/verif/seeded/%s-*/meta.json" % prop)):
     b = json.load(open(m))["breaks"]
-    b = re.split(r"[.;]? \(?(?:Initially missed|Initially caught|Missed|Caught|caught|missed|First missed|Detected|detected|rule C\d\d)", b)[0]
+    b = re.split(r"[.;]? \(?(?:Initially missed|Initially caught|First answer of the check|Missed|Caught|caught|missed|First missed|Detected|detected|rule C\d\d)", b)[0]
     ideas.append(b.strip())
 if ideas:
     t += "\n\nADDITIONAL CONSTRAINT for this attempt: earlier attempts already used these ideas: " + " ".join("(%d) %s;" % (i + 1, x) for i, x in enumerate(ideas)) + \
